@@ -47,6 +47,8 @@ UNICAST_REPEAT_PARAMS = _UdpRepeatParams(500, 2, 50, 250, 500)
 MULTICAST_REPEAT_PARAMS = _UdpRepeatParams(500, 4, 50, 250, 500)
 
 # these time constants control the send-loop
+OWN_MESSAGE_IDS_MAX_AGE = 60.0  # seconds; far longer than the retransmission span of a message
+OWN_MESSAGE_IDS_PURGE_SIZE = 200  # purge old ids only when there are at least that many
 SEND_LOOP_IDLE_SLEEP = 0.1
 SEND_LOOP_BUSY_SLEEP = 0.01
 
@@ -91,6 +93,10 @@ class NetworkingThread:
         self._send_queue = queue.PriorityQueue(10000)
         self._read_queue = queue.Queue(10000)
         self._known_message_ids = collections.deque(maxlen=200)
+        # ids of own messages are kept separately and by age, not by count: neither incoming traffic (e.g. 200
+        # ProbeMatches answering an own Probe) nor own traffic (the Resolves sent for them) may push an id out while
+        # retransmissions of that message are still looped back
+        self._own_message_ids = collections.deque()  # (message id, time of hand-over), newest first
         self._inbound_selector = selectors.DefaultSelector()
         self._outbound_selector = selectors.DefaultSelector()
         self.multi_in = self._create_multicast_in_socket(my_ip_address, multicast_port)
@@ -132,7 +138,11 @@ class NetworkingThread:
         """Add a message to the sending queue."""
         self._logger.debug('adding outbound message with Id "%s" to sending queue',
                            msg.p_msg.header_info_block.MessageID)
-        self._known_message_ids.appendleft(msg.p_msg.header_info_block.MessageID)
+        now = time.time()
+        while len(self._own_message_ids) >= OWN_MESSAGE_IDS_PURGE_SIZE \
+                and now - self._own_message_ids[-1][1] > OWN_MESSAGE_IDS_MAX_AGE:
+            self._own_message_ids.pop()
+        self._own_message_ids.appendleft((msg.p_msg.header_info_block.MessageID, now))
         self._repeated_enqueue_msg(OutgoingMessage(msg, addr, port), repeat_params)
 
     def _repeated_enqueue_msg(self, msg: OutgoingMessage, delay_params: _UdpRepeatParams):
@@ -207,7 +217,7 @@ class NetworkingThread:
                                           ex)
                     else:
                         mid = received_message.p_msg.header_info_block.MessageID
-                        if mid in self._known_message_ids:
+                        if mid in self._known_message_ids or any(mid == own_id for own_id, _ in self._own_message_ids):
                             self._logger.debug('incoming message already known: %s (from %r, Id %s).',
                                                received_message.action, addr, mid)
                             continue
